@@ -38,3 +38,11 @@ package cmap
 //@     invariant forall k int :: 0 <= k && k < i ==> forall c int :: g12start(data, k) <= c && c <= g12end(data, k) ==> has(cmap, c) && cmap[c] == uint16(g12gid(data, k) + c - g12start(data, k))
 //@     invariant forall c2 int :: startCharCode <= c2 && c2 < c ==> has(cmap, c2) && cmap[c2] == uint16(startGlyphID + c2 - startCharCode)
 //@     decreases endCharCode + 1 - c
+
+//@ func Decode(data []byte) (tab Table, err error)   props: C02 C09
+//@   ensures err == nil ==> tab != nil
+//@   modifies nothing
+//@   loop 0
+//@     invariant 0 <= i && i <= numTables && numTables <= 65535 && len(data) >= 4 + 8*numTables && endOfHeader == 4 + 8*numTables
+//@     invariant endOfData == len(data) && len(data) <= 4294967295 && res != nil && fresh(res) && (isnil(segs) || fresh(segs))
+//@     decreases numTables - i
